@@ -163,6 +163,11 @@ def diffObs (a b : Obs) : List String :=
   (if a.l2 != b.l2 then ["level2"] else []) ++
   (if a.mid2 != b.mid2 then ["mid"] else []) ++
   (if a.orders != b.orders then ["orders"] else []) ++
+  (if a.orders.map (·.status) != b.orders.map (·.status) then ["orders.status"] else []) ++
+  (if a.orders.map (·.vol) != b.orders.map (·.vol) then ["orders.vol"] else []) ++
+  (if a.orders.map (·.price) != b.orders.map (·.price) then ["orders.price"] else []) ++
+  (if a.orders.map (fun o => (o.arr, o.endt)) != b.orders.map (fun o => (o.arr, o.endt)) then ["orders.times"] else []) ++
+  (if a.orders.map (fun o => (o.id, o.side, o.trader, o.svol)) != b.orders.map (fun o => (o.id, o.side, o.trader, o.svol)) then ["orders.ident"] else []) ++
   (if a.trades != b.trades then ["trades"] else [])
 
 end Bourse.Driver
